@@ -204,6 +204,8 @@ def run(chk):
     rng = random.Random(chk.seed)
     common.translate_for(chk, ["evaluator", "grammar", "textenc"])
     chk.proof = common.prove("C03")
+    if chk.tier == "thorough":
+        common.coqchk(chk, "C03")
     probe = Proc([common.build_probe()])
     model = Proc([common.build_model()])
     thorough = chk.tier == "thorough"
